@@ -9,6 +9,7 @@ import (
 	"io"
 	"net"
 	"net/url"
+	"runtime"
 	"strings"
 	"sync"
 	"sync/atomic"
@@ -42,6 +43,11 @@ type kase struct {
 	SendRep    string   `json:"send_rep"` // representation of the messages handed to a send: gen | dyn
 	RecvRep    string   `json:"recv_rep"` // representation of the receive destinations
 	HandlerErr bool     `json:"handler_err,omitempty"`
+	// GC: the client's last use of its stream object is the final receive (as in a
+	// generated CloseAndRecv), and a garbage collection including finalizers
+	// completes while the handler is still busy. In all other cases the harness
+	// keeps the stream object reachable until the call is over.
+	GC         bool     `json:"gc,omitempty"`
 	RPC        rpcSpec  `json:"rpc"`
 	RPC2       *rpcSpec `json:"rpc2,omitempty"` // a second RPC running concurrently on the same channel
 }
@@ -50,6 +56,9 @@ func (k kase) key() string {
 	s := fmt.Sprintf("%s|%s|%s>%s|%s/%d/%d|err=%v", k.Transport, k.Shape, k.SendRep, k.RecvRep, k.RPC.Kind, k.RPC.N, k.RPC.M, k.HandlerErr)
 	if k.RPC2 != nil {
 		s += fmt.Sprintf("|%s/%d/%d", k.RPC2.Kind, k.RPC2.N, k.RPC2.M)
+	}
+	if k.GC {
+		s += "|gc"
 	}
 	return s
 }
@@ -212,8 +221,8 @@ func (r *rpcRun) onRecv(dir string, got interface{}) {
 func isHuge(s *shape) bool { return s.Group == "huge" }
 
 // finishChecks: the end-of-call clauses.
-func (r *rpcRun) finishChecks(reference bool) {
-	handlerOK := r.srvErr == nil && atomic.LoadInt32(&r.handlerEntered) == 1
+func (r *rpcRun) finishChecks() {
+	handlerOK := r.srvErr == nil && !r.k.HandlerErr && atomic.LoadInt32(&r.handlerEntered) == 1
 	if !r.k.HandlerErr {
 		// the scripts are valid and the handler returns nil: the standard transport completes these successfully
 		tolerated := func(err error) bool {
@@ -259,6 +268,7 @@ func (r *rpcRun) unaryHandler(ctx context.Context, dec func(interface{}) error) 
 	}
 	r.onRecv("req", d)
 	r.b2.wait()
+	r.gcRounds()
 	if r.k.HandlerErr {
 		return nil, errScripted
 	}
@@ -292,6 +302,7 @@ func (r *rpcRun) streamHandler(ss grpc.ServerStream) (err error) {
 		r.onRecv("req", d)
 	}
 	r.b2.wait()
+	r.gcRounds()
 	for j := 0; j < r.spec.M; j++ {
 		atomic.AddInt32(&r.started[1], 1)
 		if err := ss.SendMsg(r.build("resp", j)); err != nil {
@@ -346,6 +357,33 @@ func (r *rpcRun) client(cc grpc.ClientConnInterface, method string) {
 		r.cliErr = err
 		return
 	}
+	if r.k.GC {
+		r.receive(cs) // nothing below refers to cs: the stream object is unreachable during its last call
+	} else {
+		r.receive(cs)
+		runtime.KeepAlive(cs)
+	}
+}
+
+// gcRounds: garbage collections whose finalizers have all run (GC cases only).
+func (r *rpcRun) gcRounds() {
+	if !r.k.GC {
+		return
+	}
+	for i := 0; i < 4; i++ {
+		for j := 0; j < 100; j++ {
+			runtime.Gosched() // let the client get into its receive
+		}
+		done := make(chan struct{})
+		s := new([16]byte)
+		runtime.SetFinalizer(s, func(*[16]byte) { close(done) })
+		s = nil
+		runtime.GC()
+		<-done // the finalizer goroutine has worked through what this cycle queued
+	}
+}
+
+func (r *rpcRun) receive(cs grpc.ClientStream) {
 	if !serverStreams(r.spec.Kind) {
 		d := r.dest()
 		if err := cs.RecvMsg(d); err != nil {
@@ -506,7 +544,7 @@ func runCase(k kase) (o outcome) {
 	}
 	var obs []string
 	for _, r := range runs {
-		r.finishChecks(k.Transport == "grpc")
+		r.finishChecks()
 		o.Findings = append(o.Findings, r.findings...)
 		o.Frames += r.frames
 		obs = append(obs, fmt.Sprintf("%s: handler obtained %d/%d requests, client obtained %d/%d responses, client result %v, handler result %v",
